@@ -100,34 +100,46 @@ func (e *Engine) modelCall(s *State, fr *Frame, dst *ssa.Call, key string, f *ss
 		s.heapSet(mkey, Store(h, base, e.u.Define("put", arr)))
 		return nil, nil, true, false
 	case "encoding/binary.Uvarint", "encoding/binary.Varint":
-		e.trustModel(key)
+		// exact model of encoding/binary.Uvarint (the 10-step loop unrolled completely)
+		e.trustModel(key + " (exact unrolling of the stdlib loop)")
 		sl := args[0].(Term)
 		arr, off, ln := e.byteSliceParts(s, sl)
-		vf, nf := "uvarint.val", "uvarint.n"
+		arr = e.u.Define("uvarr", arr)
+		off = e.u.Define("uvoff", off)
+		ln = e.u.Define("uvlen", ln)
+		// build from the last step backwards: (val, n) at step i with accumulator acc_i
+		accs := make([]Term, 11)
+		accs[0] = IntLit(0)
+		bytesT := make([]Term, 11)
+		for i := 0; i < 10; i++ {
+			bt := e.u.Define(fmt.Sprintf("uvb%d", i), Select(arr, Add(off, IntLit(int64(i)))))
+			bytesT[i] = bt
+			accs[i+1] = e.u.Define(fmt.Sprintf("uvacc%d", i+1), Add(accs[i], Mul(Sub(bt, IntLit(128)), BigLit(pow2(uint(7*i))))))
+		}
+		val, n := Term(IntLit(0)), Term(IntLit(-11)) // i == MaxVarintLen64
+		for i := 9; i >= 0; i-- {
+			bt := bytesT[i]
+			done := Lt(bt, IntLit(128))
+			var dv, dn Term
+			if i == 9 {
+				dv = Ite(Gt(bt, IntLit(1)), IntLit(0), Add(accs[i], Mul(bt, BigLit(pow2(uint(7*i))))))
+				dn = Ite(Gt(bt, IntLit(1)), IntLit(-10), IntLit(10))
+			} else {
+				dv = Add(accs[i], Mul(bt, BigLit(pow2(uint(7*i)))))
+				dn = IntLit(int64(i + 1))
+			}
+			exhausted := Ge(IntLit(int64(i)), ln)
+			val = e.u.Define(fmt.Sprintf("uvv%d", i), Ite(exhausted, IntLit(0), Ite(done, dv, val)))
+			n = e.u.Define(fmt.Sprintf("uvn%d", i), Ite(exhausted, IntLit(0), Ite(done, dn, n)))
+		}
+		for i := 0; i < 10; i++ {
+			s.assume(Implies(Lt(IntLit(int64(i)), ln), And(Le(IntLit(0), bytesT[i]), Le(bytesT[i], IntLit(255)))))
+		}
 		if key == "encoding/binary.Varint" {
-			vf, nf = "varint.val", "varint.n"
+			// ux>>1, complemented when the low bit is set; n as for Uvarint
+			half := App("div", SInt, val, IntLit(2))
+			val = e.u.Define("varint", Ite(Eq(App("mod", SInt, val, IntLit(2)), IntLit(1)), Sub(IntLit(-1), half), half))
 		}
-		asort := ArraySort(SInt, SInt)
-		e.u.DeclareFun(vf, []string{asort, SInt, SInt}, SInt)
-		e.u.DeclareFun(nf, []string{asort, SInt, SInt}, SInt)
-		val := e.u.Define("uv", App(vf, SInt, arr, off, ln))
-		n := e.u.Define("un", App(nf, SInt, arr, off, ln))
-		if key == "encoding/binary.Varint" {
-			s.assume(e.tm.TypeFacts(val, types.Typ[types.Int64]))
-		} else {
-			s.assume(e.tm.TypeFacts(val, types.Typ[types.Uint64]))
-		}
-		// n in [-11,10]; |n| <= len; n == 0 iff buffer exhausted before a terminating byte (so len < 10 possible only)
-		s.assume(And(Le(IntLit(-11), n), Le(n, IntLit(10)), Le(n, ln), Le(Sub(IntLit(0), n), ln)))
-		s.assume(Implies(Le(n, IntLit(0)), Eq(val, IntLit(0))))
-		// first byte < 0x80 => one-byte encoding
-		b0 := Select(arr, off)
-		if key == "encoding/binary.Uvarint" {
-			s.assume(Implies(And(Ge(ln, IntLit(1)), Lt(b0, IntLit(128))), And(Eq(n, IntLit(1)), Eq(val, b0))))
-		} else {
-			s.assume(Implies(And(Ge(ln, IntLit(1)), Lt(b0, IntLit(128))), Eq(n, IntLit(1))))
-		}
-		s.assume(Implies(Eq(ln, IntLit(0)), Eq(n, IntLit(0))))
 		return &Tuple{Vs: []Value{val, n}}, nil, true, false
 	case "fmt.Errorf", "errors.New":
 		return e.errorValue(s, "err"), nil, true, false
